@@ -10,8 +10,22 @@
     real threads, so an executed interleaving can be replayed step by step. Thread 0 is the RING
     thread (a number of [Ring::poll(Some(ZERO))] calls), thread k+1 is FUTURE thread k running a
     program of API calls [Poll i w | DropOp i | Yield] ([Yield] is the driver's own scheduling
-    point between rounds). [K i] is the kernel finishing request [i] on its own (only when the
-    kernel is not auto-completing).
+    point between rounds). [K i] is the kernel posting the NEXT completion of the script of
+    in-flight request [i] (a no-op when [i] is not in flight or its script is used up).
+
+    Operation kinds ([o_kind]):
+    - [Single]: one state, [Singleshot(CompletionResult)] = [o_res]; ready when the completion
+      without IORING_CQE_F_MORE has been dispatched;
+    - [Multi] (multishot accept: [poll_next]): [Multishot(Vec)] = [o_q]; EVERY dispatched
+      completion (with or without F_MORE) is appended to the queue under the operation's mutex and
+      takes-and-wakes the stored waker; a poll pops the oldest result under the same mutex (the
+      stored waker is left alone) or, the queue being empty, stores its waker and returns Pending
+      (status Running) / ends the stream (status Done -> Complete);
+    - [TwoStep] (zero-copy send): the same Rust type as [Single]; its script is a result completion
+      with F_MORE (stored, NO wake, the waker stays) and a notification without F_MORE (F_NOTIF: the
+      stored result is kept, Done, wake).
+    A dropped running operation of any kind is released by the dispatch of a completion WITHOUT
+    F_MORE; a completion with F_MORE of a dropped operation is ignored.
 
     Where the locks are in this model:
     - the per-operation mutex is [o_holder]: a future thread keeps it across [Submissions::add]
@@ -24,11 +38,10 @@
       across a point the replay would see a LOCK_SPIN the model does not expect.
 
     Simplifications (also listed in the assumptions of the C03R entry of bin/props.py):
-    - single-shot operations with ONE completion each (heap-buffer writes); no multishot, no
-      zero-copy notification, no result values: every completion of a live future makes it Ready
-      (the driver's kernel completes with 7), so the EINTR/ECANCELED re-issue loop of [poll_inner]
-      is not modelled (the only -ECANCELED this kernel produces is for an operation whose future
-      was dropped);
+    - NO RESTARTS: the EINTR/ECANCELED re-issue loop of [poll_inner] is not modelled, a poll hands
+      out whatever result is stored (the driver scripts non-negative results only; the only
+      -ECANCELED this kernel produces is for an operation whose future was dropped, which nobody
+      reads); an error result of a live operation ([fallback]) is not modelled either;
     - [Ring::poll] with a zero timeout, default ring mode (no SQPOLL, no single issuer), nobody
       calls [SubmissionQueue::wake] (the two polling-state swaps are plain scheduling points);
     - the rings are counters and FIFO lists (their 32-bit mechanics are C04/C05): [sqh]/[sqt]
@@ -36,11 +49,14 @@
       published CQ head is only read back by the ring thread itself, so "head = tail" is "[cq] is
       empty" and the head store is a plain scheduling point; the completion queue never overflows;
     - kernel (K1, K2, K4 of DESIGN.md §5): consumes exactly the entries [enter] announces, in order;
-      auto-completing ([auto = true], what the driver uses) every request completes when it is
-      consumed, otherwise it stays in flight until [K i]; ASYNC_CANCEL is matched inline against
-      the in-flight table: a winning cancel posts the target's final completion silently, a losing
-      one (-EALREADY) or one that finds nothing (-ENOENT) posts a bookkeeping entry that
-      [Completion::process] ignores without taking any lock.
+      auto-completing ([auto = true]) every request completes when it is consumed with the one
+      completion [auto_cqe] (result 7, no flags), whatever its kind; otherwise it stays in flight and
+      each [K i] posts the head of [scripts i] (ANY list of completions: result, F_MORE, F_NOTIF),
+      leaving the in-flight table when that completion lacks F_MORE (the kernel posts nothing
+      after a final completion); ASYNC_CANCEL is matched inline against the in-flight table: a
+      winning cancel removes the target and posts its final completion (-ECANCELED, no flags)
+      silently, a losing one (-EALREADY) or one that finds nothing (-ENOENT) posts a bookkeeping
+      entry that [Completion::process] ignores without taking any lock.
 
     Fields named [g_…] are GHOST: no executable field, no branch and no observation reads them.
     Executable definitions only; proofs are in Proofs/OpRaceProofs.v. *)
@@ -48,16 +64,26 @@ From A10 Require Import Base.Word Base.Run.
 
 Inductive status := NotStarted | Running | Done | Dropped | Complete.
 
+Inductive kind := Single | Multi | TwoStep.
+
+(** A completion as the kernel posts it: result, IORING_CQE_F_MORE, IORING_CQE_F_NOTIF. *)
+Record cqe := { c_res : Z; c_more : bool; c_notif : bool }.
+Definition fin (r : Z) : cqe := {| c_res := r; c_more := false; c_notif := false |}.
+Definition ECANCELED : Z := 125.
+(** What the auto-completing kernel completes every request with. *)
+Definition auto_cqe : cqe := fin 7.
+
 Inductive sqe := Submit (i : nat) | Cancel (i : nat).
 (** A posted completion: of operation [i], or a bookkeeping entry (user_data 2). *)
-Inductive centry := COp (i : nat) | CBook.
+Inductive centry := COp (i : nat) (c : cqe) | CBook.
 
 Inductive call := Poll (i : nat) (w : N) | DropOp (i : nat) | Yield.
 
 Inductive obs :=
   | OPending (i : nat) (w : N)   (* poll returned Pending with the waker registered in the operation *)
   | OParked (i : nat) (w : N)    (* poll returned Pending with the waker parked on the blocked list *)
-  | OReady (i : nat)
+  | OReady (i : nat) (v : Z)     (* poll returned Ready with a result / a stream item *)
+  | OEnd (i : nat)               (* poll_next returned Ready(None): end of the stream *)
   | OPanic
   | OConsumed (e : sqe)
   | OWake (w : N)                (* woken by the dispatch of a completion *)
@@ -65,17 +91,22 @@ Inductive obs :=
   | OFree (i : nat) (seen : bool). (* state box freed; [seen]: the harness knows the address *)
 
 Record op := {
+  o_kind : kind;
   o_st : status;
   o_waker : option N;
   o_holder : option nat;    (* the operation's mutex: thread holding it across a scheduling point *)
   o_alloc : bool;           (* the state box is allocated *)
   o_started : bool;         (* a submission was queued for it at some time (the harness learns the box address from it) *)
   o_cancelable : bool;      (* kernel side: an ASYNC_CANCEL finding it in flight wins *)
+  o_res : Z;                (* [Singleshot]: the stored result (Single, TwoStep) *)
+  o_q : list Z;             (* [Multishot]: results dispatched and not yet handed out (Multi) *)
   (* ghost *)
   g_lastw : option N;       (* waker of the most recent poll that returned Pending; [None] after a poll returned Ready *)
   g_woken : bool;           (* the dispatch of its completion invoked that waker since that poll *)
   g_frees : nat;            (* times the box was freed *)
   g_cancels : nat;          (* cancel requests queued for it *)
+  g_disp : list cqe;        (* every completion [Shared::update] was called with for it, in order *)
+  g_out : list Z;           (* every value its polls handed out (Ready results / stream items), in order *)
 }.
 
 (** Scheduling point the ring thread is stopped at, inside [Completions::poll]. *)
@@ -118,6 +149,7 @@ Record sys := {
   sq : list sqe;            (* published, not yet consumed *)
   sub_holder : option nat;  (* submission lock *)
   inflight : list nat;      (* consumed, final completion not yet posted *)
+  scripts : nat -> list cqe;  (* kernel: completions request [i] will still post, one per [K i] *)
   cq : list centry;         (* posted, not yet processed *)
   blocked : list N;         (* blocked_futures: wakers waiting for a submission slot *)
   (* ring thread *)
@@ -138,13 +170,16 @@ Record sys := {
 Definition upd {A : Type} (f : nat -> A) (i : nat) (x : A) : nat -> A :=
   fun j => if Nat.eqb j i then x else f j.
 
-Definition new_op (c : bool) : op :=
-  {| o_st := NotStarted; o_waker := None; o_holder := None; o_alloc := true; o_started := false;
-     o_cancelable := c; g_lastw := None; g_woken := false; g_frees := 0; g_cancels := 0 |}.
+Definition new_op (k : kind) (c : bool) : op :=
+  {| o_kind := k; o_st := NotStarted; o_waker := None; o_holder := None; o_alloc := true; o_started := false;
+     o_cancelable := c; o_res := 0; o_q := [];
+     g_lastw := None; g_woken := false; g_frees := 0; g_cancels := 0; g_disp := []; g_out := [] |}.
 
-Definition init (cap0 : N) (auto0 : bool) (canc : list bool) (npolls : nat) (progs : list (list call)) : sys :=
-  {| cap := cap0; auto := auto0; ops := fun i => new_op (nth i canc false);
-     sqh := 0; sqt := 0; sq := []; sub_holder := None; inflight := []; cq := []; blocked := [];
+Definition init (cap0 : N) (auto0 : bool) (kinds : list kind) (canc : list bool) (scr : list (list cqe))
+                (npolls : nat) (progs : list (list call)) : sys :=
+  {| cap := cap0; auto := auto0; ops := fun i => new_op (nth i kinds Single) (nth i canc false);
+     sqh := 0; sqt := 0; sq := []; sub_holder := None; inflight := []; scripts := fun i => nth i scr [];
+     cq := []; blocked := [];
      r_pc := RIdle; r_polls := npolls; r_lh := 0; r_n := 0; r_end := false; r_avail := 0; r_rest := [];
      thr := fun k => {| f_pc := FStart; f_prog := nth k progs []; f_lh := 0 |};
      g_parked := []; g_bwoken := []; g_bad := false |}.
@@ -153,7 +188,7 @@ Definition init (cap0 : N) (auto0 : bool) (canc : list bool) (npolls : nat) (pro
 
 Definition set_ops (s : sys) (x : nat -> op) : sys :=
   {| cap := cap s; auto := auto s; ops := x; sqh := sqh s; sqt := sqt s; sq := sq s;
-     sub_holder := sub_holder s; inflight := inflight s; cq := cq s; blocked := blocked s;
+     sub_holder := sub_holder s; inflight := inflight s; scripts := scripts s; cq := cq s; blocked := blocked s;
      r_pc := r_pc s; r_polls := r_polls s; r_lh := r_lh s; r_n := r_n s; r_end := r_end s;
      r_avail := r_avail s; r_rest := r_rest s; thr := thr s;
      g_parked := g_parked s; g_bwoken := g_bwoken s; g_bad := g_bad s |}.
@@ -161,7 +196,7 @@ Definition set_op (s : sys) (i : nat) (o : op) : sys := set_ops s (upd (ops s) i
 
 Definition set_thr (s : sys) (t : nat) (x : fthread) : sys :=
   {| cap := cap s; auto := auto s; ops := ops s; sqh := sqh s; sqt := sqt s; sq := sq s;
-     sub_holder := sub_holder s; inflight := inflight s; cq := cq s; blocked := blocked s;
+     sub_holder := sub_holder s; inflight := inflight s; scripts := scripts s; cq := cq s; blocked := blocked s;
      r_pc := r_pc s; r_polls := r_polls s; r_lh := r_lh s; r_n := r_n s; r_end := r_end s;
      r_avail := r_avail s; r_rest := r_rest s; thr := upd (thr s) t x;
      g_parked := g_parked s; g_bwoken := g_bwoken s; g_bad := g_bad s |}.
@@ -169,14 +204,14 @@ Definition set_thr (s : sys) (t : nat) (x : fthread) : sys :=
 (** Submission queue: consumed count, published count, pending entries. *)
 Definition set_sq (s : sys) (h t : N) (q : list sqe) : sys :=
   {| cap := cap s; auto := auto s; ops := ops s; sqh := h; sqt := t; sq := q;
-     sub_holder := sub_holder s; inflight := inflight s; cq := cq s; blocked := blocked s;
+     sub_holder := sub_holder s; inflight := inflight s; scripts := scripts s; cq := cq s; blocked := blocked s;
      r_pc := r_pc s; r_polls := r_polls s; r_lh := r_lh s; r_n := r_n s; r_end := r_end s;
      r_avail := r_avail s; r_rest := r_rest s; thr := thr s;
      g_parked := g_parked s; g_bwoken := g_bwoken s; g_bad := g_bad s |}.
 
 Definition set_sub_holder (s : sys) (h : option nat) : sys :=
   {| cap := cap s; auto := auto s; ops := ops s; sqh := sqh s; sqt := sqt s; sq := sq s;
-     sub_holder := h; inflight := inflight s; cq := cq s; blocked := blocked s;
+     sub_holder := h; inflight := inflight s; scripts := scripts s; cq := cq s; blocked := blocked s;
      r_pc := r_pc s; r_polls := r_polls s; r_lh := r_lh s; r_n := r_n s; r_end := r_end s;
      r_avail := r_avail s; r_rest := r_rest s; thr := thr s;
      g_parked := g_parked s; g_bwoken := g_bwoken s; g_bad := g_bad s |}.
@@ -184,7 +219,7 @@ Definition set_sub_holder (s : sys) (h : option nat) : sys :=
 (** Kernel side: in-flight table and posted completions. *)
 Definition set_kernel (s : sys) (fl : list nat) (q : list centry) : sys :=
   {| cap := cap s; auto := auto s; ops := ops s; sqh := sqh s; sqt := sqt s; sq := sq s;
-     sub_holder := sub_holder s; inflight := fl; cq := q; blocked := blocked s;
+     sub_holder := sub_holder s; inflight := fl; scripts := scripts s; cq := q; blocked := blocked s;
      r_pc := r_pc s; r_polls := r_polls s; r_lh := r_lh s; r_n := r_n s; r_end := r_end s;
      r_avail := r_avail s; r_rest := r_rest s; thr := thr s;
      g_parked := g_parked s; g_bwoken := g_bwoken s; g_bad := g_bad s |}.
@@ -192,7 +227,7 @@ Definition set_kernel (s : sys) (fl : list nat) (q : list centry) : sys :=
 (** The blocked list with its two ghost ledgers. *)
 Definition set_blocked (s : sys) (b : list N) (gp gw : list N) : sys :=
   {| cap := cap s; auto := auto s; ops := ops s; sqh := sqh s; sqt := sqt s; sq := sq s;
-     sub_holder := sub_holder s; inflight := inflight s; cq := cq s; blocked := b;
+     sub_holder := sub_holder s; inflight := inflight s; scripts := scripts s; cq := cq s; blocked := b;
      r_pc := r_pc s; r_polls := r_polls s; r_lh := r_lh s; r_n := r_n s; r_end := r_end s;
      r_avail := r_avail s; r_rest := r_rest s; thr := thr s;
      g_parked := gp; g_bwoken := gw; g_bad := g_bad s |}.
@@ -200,7 +235,7 @@ Definition set_blocked (s : sys) (b : list N) (gp gw : list N) : sys :=
 (** Ring thread: program counter and locals. *)
 Definition set_ring (s : sys) (p : rpc) (polls : nat) (lh : N) (n : nat) (e : bool) (av : nat) (rest : list N) : sys :=
   {| cap := cap s; auto := auto s; ops := ops s; sqh := sqh s; sqt := sqt s; sq := sq s;
-     sub_holder := sub_holder s; inflight := inflight s; cq := cq s; blocked := blocked s;
+     sub_holder := sub_holder s; inflight := inflight s; scripts := scripts s; cq := cq s; blocked := blocked s;
      r_pc := p; r_polls := polls; r_lh := lh; r_n := n; r_end := e; r_avail := av; r_rest := rest;
      thr := thr s; g_parked := g_parked s; g_bwoken := g_bwoken s; g_bad := g_bad s |}.
 Definition set_rpc (s : sys) (p : rpc) : sys :=
@@ -208,67 +243,124 @@ Definition set_rpc (s : sys) (p : rpc) : sys :=
 
 Definition set_bad (s : sys) (b : bool) : sys :=
   {| cap := cap s; auto := auto s; ops := ops s; sqh := sqh s; sqt := sqt s; sq := sq s;
-     sub_holder := sub_holder s; inflight := inflight s; cq := cq s; blocked := blocked s;
+     sub_holder := sub_holder s; inflight := inflight s; scripts := scripts s; cq := cq s; blocked := blocked s;
      r_pc := r_pc s; r_polls := r_polls s; r_lh := r_lh s; r_n := r_n s; r_end := r_end s;
      r_avail := r_avail s; r_rest := r_rest s; thr := thr s;
      g_parked := g_parked s; g_bwoken := g_bwoken s; g_bad := b |}.
 
+(** The kernel's side of a request: in-flight table, remaining script, posted completions ([K i]). *)
+Definition set_kernel_scr (s : sys) (fl : list nat) (sc : nat -> list cqe) (q : list centry) : sys :=
+  {| cap := cap s; auto := auto s; ops := ops s; sqh := sqh s; sqt := sqt s; sq := sq s;
+     sub_holder := sub_holder s; inflight := fl; scripts := sc; cq := q; blocked := blocked s;
+     r_pc := r_pc s; r_polls := r_polls s; r_lh := r_lh s; r_n := r_n s; r_end := r_end s;
+     r_avail := r_avail s; r_rest := r_rest s; thr := thr s;
+     g_parked := g_parked s; g_bwoken := g_bwoken s; g_bad := g_bad s |}.
+
 (** * The operation state under its mutex *)
 
-Definition mk_op (o : op) (st : status) (wk : option N) (h : option nat) (al sd : bool)
-                 (lw : option N) (wn : bool) (fr cn : nat) : op :=
-  {| o_st := st; o_waker := wk; o_holder := h; o_alloc := al; o_started := sd;
-     o_cancelable := o_cancelable o; g_lastw := lw; g_woken := wn; g_frees := fr; g_cancels := cn |}.
+Definition mk_op (o : op) (st : status) (wk : option N) (h : option nat) (al sd : bool) (rs : Z) (q : list Z)
+                 (lw : option N) (wn : bool) (fr cn : nat) (dp : list cqe) (ot : list Z) : op :=
+  {| o_kind := o_kind o; o_st := st; o_waker := wk; o_holder := h; o_alloc := al; o_started := sd;
+     o_cancelable := o_cancelable o; o_res := rs; o_q := q;
+     g_lastw := lw; g_woken := wn; g_frees := fr; g_cancels := cn; g_disp := dp; g_out := ot |}.
 
 Definition o_lock (o : op) (t : nat) : op :=
-  mk_op o (o_st o) (o_waker o) (Some t) (o_alloc o) (o_started o) (g_lastw o) (g_woken o) (g_frees o) (g_cancels o).
+  mk_op o (o_st o) (o_waker o) (Some t) (o_alloc o) (o_started o) (o_res o) (o_q o)
+        (g_lastw o) (g_woken o) (g_frees o) (g_cancels o) (g_disp o) (g_out o).
 
 Definition o_unlock (o : op) : op :=
-  mk_op o (o_st o) (o_waker o) None (o_alloc o) (o_started o) (g_lastw o) (g_woken o) (g_frees o) (g_cancels o).
+  mk_op o (o_st o) (o_waker o) None (o_alloc o) (o_started o) (o_res o) (o_q o)
+        (g_lastw o) (g_woken o) (g_frees o) (g_cancels o) (g_disp o) (g_out o).
 
-(** [poll_inner], status Running: [set_waker] stores the new waker; Pending. (Mutex taken and
-    released inside the step.) *)
+(** [poll_inner], status Running (Single, TwoStep; Multi with an empty result queue): [set_waker]
+    stores the new waker; Pending. (Mutex taken and released inside the step.) *)
 Definition o_repoll (o : op) (w : N) : op :=
-  mk_op o (o_st o) (Some w) (o_holder o) (o_alloc o) (o_started o) (Some w) false (g_frees o) (g_cancels o).
+  mk_op o (o_st o) (Some w) (o_holder o) (o_alloc o) (o_started o) (o_res o) (o_q o)
+        (Some w) false (g_frees o) (g_cancels o) (g_disp o) (g_out o).
 
-(** [poll_inner], status NotStarted, after [add] succeeded: waker stored, status Running, mutex
-    released; Pending. *)
+(** [poll_inner], status NotStarted, after [add] succeeded: waker stored, status Running with
+    [O::empty()] results, mutex released; Pending. *)
 Definition o_submitted (o : op) (w : N) : op :=
-  mk_op o Running (Some w) None (o_alloc o) true (Some w) false (g_frees o) (g_cancels o).
+  mk_op o Running (Some w) None (o_alloc o) true 0%Z []
+        (Some w) false (g_frees o) (g_cancels o) (g_disp o) (g_out o).
 
-(** [poll_inner], status Done: Complete; Ready. *)
+(** [poll_inner], status Done, Single / TwoStep: Complete; Ready with the stored result. *)
 Definition o_ready (o : op) : op :=
-  mk_op o Complete (o_waker o) (o_holder o) (o_alloc o) (o_started o) None false (g_frees o) (g_cancels o).
+  mk_op o Complete (o_waker o) (o_holder o) (o_alloc o) (o_started o) (o_res o) (o_q o)
+        None false (g_frees o) (g_cancels o) (g_disp o) (g_out o ++ [o_res o]).
+
+(** [poll_inner], Multi, status Running or Done, [results.next()] = Some: the oldest queued result
+    is removed and handed out; status and stored waker unchanged. *)
+Definition o_item (o : op) (v : Z) (q' : list Z) : op :=
+  mk_op o (o_st o) (o_waker o) (o_holder o) (o_alloc o) (o_started o) (o_res o) q'
+        None false (g_frees o) (g_cancels o) (g_disp o) (g_out o ++ [v]).
+
+(** [poll_inner], Multi, status Done, queue empty: Complete; Ready(None). *)
+Definition o_end (o : op) : op :=
+  mk_op o Complete (o_waker o) (o_holder o) (o_alloc o) (o_started o) (o_res o) (o_q o)
+        None false (g_frees o) (g_cancels o) (g_disp o) (g_out o).
 
 (** Ghost only: the poll returned Pending with its waker parked on the blocked list. *)
 Definition o_parked (o : op) (w : N) : op :=
-  mk_op o (o_st o) (o_waker o) (o_holder o) (o_alloc o) (o_started o) (Some w) false (g_frees o) (g_cancels o).
+  mk_op o (o_st o) (o_waker o) (o_holder o) (o_alloc o) (o_started o) (o_res o) (o_q o)
+        (Some w) false (g_frees o) (g_cancels o) (g_disp o) (g_out o).
 
 (** [State::drop], status Running: Dropped (after the cancel was queued or found no room), mutex released. *)
 Definition o_dropped (o : op) (queued : bool) : op :=
-  mk_op o Dropped (o_waker o) None (o_alloc o) (o_started o) (g_lastw o) (g_woken o) (g_frees o)
-        (g_cancels o + (if queued then 1 else 0)).
+  mk_op o Dropped (o_waker o) None (o_alloc o) (o_started o) (o_res o) (o_q o)
+        (g_lastw o) (g_woken o) (g_frees o) (g_cancels o + (if queued then 1 else 0)) (g_disp o) (g_out o).
 
 (** [drop_state]: the box is deallocated. *)
 Definition o_free (o : op) : op :=
-  mk_op o (o_st o) (o_waker o) (o_holder o) false (o_started o) (g_lastw o) (g_woken o) (S (g_frees o)) (g_cancels o).
+  mk_op o (o_st o) (o_waker o) (o_holder o) false (o_started o) (o_res o) (o_q o)
+        (g_lastw o) (g_woken o) (S (g_frees o)) (g_cancels o) (g_disp o) (g_out o).
+
+(** Ghost only: [Shared::update] was called with [c]. *)
+Definition o_seen (o : op) (c : cqe) : op :=
+  mk_op o (o_st o) (o_waker o) (o_holder o) (o_alloc o) (o_started o) (o_res o) (o_q o)
+        (g_lastw o) (g_woken o) (g_frees o) (g_cancels o) (g_disp o ++ [c]) (g_out o).
 
 Definition waker_eqb (a b : option N) : bool :=
   match a, b with Some x, Some y => x =? y | _, _ => false end.
 
-(** [Shared::update] on Running / Done with a completion lacking F_MORE: Done, the waker is taken. *)
-Definition o_completed (o : op) : op :=
-  mk_op o Done None (o_holder o) (o_alloc o) (o_started o) (g_lastw o)
-        (g_woken o || waker_eqb (o_waker o) (g_lastw o)) (g_frees o) (g_cancels o).
+(** [OpResult::update]: [Singleshot] keeps the result of a completion without F_NOTIF,
+    [Multishot] pushes every result. *)
+Definition store_res (o : op) (c : cqe) : Z :=
+  match o_kind o with
+  | Multi => o_res o
+  | Single | TwoStep => if c_notif c then o_res o else c_res c
+  end.
+Definition push_res (o : op) (c : cqe) : list Z :=
+  match o_kind o with
+  | Multi => o_q o ++ [c_res c]
+  | Single | TwoStep => o_q o
+  end.
+
+(** [Shared::update] on Running / Done: the result is stored / queued; without F_MORE the status
+    becomes Done; [wakes = done || IS_MULTISHOT]: the waker is taken (and woken by the caller). *)
+Definition o_accept (o : op) (c : cqe) (wakes : bool) : op :=
+  mk_op o (if c_more c then o_st o else Done) (if wakes then None else o_waker o) (o_holder o) (o_alloc o)
+        (o_started o) (store_res o c) (push_res o c) (g_lastw o)
+        (if wakes then g_woken o || waker_eqb (o_waker o) (g_lastw o) else g_woken o)
+        (g_frees o) (g_cancels o) (g_disp o ++ [c]) (g_out o).
+
+Definition wake_obs (o : op) : list obs := match o_waker o with Some w => [OWake w] | None => [] end.
 
 (** [Shared::update] + what [Completion::process] does with its answer: new state of the
     operation, observations, "the box had been freed". *)
-Definition o_update (i : nat) (o : op) : op * list obs * bool :=
+Definition o_update (i : nat) (o : op) (c : cqe) : op * list obs * bool :=
   match o_st o with
   | Running | Done =>
-      (o_completed o, match o_waker o with Some w => [OWake w] | None => [] end, negb (o_alloc o))
-  | Dropped => (o_free o, [OFree i (o_started o)], negb (o_alloc o))
-  | NotStarted | Complete => (o, [OPanic], negb (o_alloc o))     (* unreachable!() *)
+      if c_more c then
+        match o_kind o with
+        | Multi => (o_accept o c true, wake_obs o, negb (o_alloc o))
+        | Single | TwoStep => (o_accept o c false, [], negb (o_alloc o))
+        end
+      else (o_accept o c true, wake_obs o, negb (o_alloc o))
+  | Dropped =>
+      if c_more c then (o_seen o c, [], negb (o_alloc o))        (* more completions are coming *)
+      else (o_free (o_seen o c), [OFree i (o_started o)], negb (o_alloc o))
+  | NotStarted | Complete => (o_seen o c, [OPanic], negb (o_alloc o))     (* unreachable!() *)
   end.
 
 (** * Kernel *)
@@ -285,19 +377,27 @@ Definition mem (i : nat) (l : list nat) : bool := existsb (Nat.eqb i) l.
 Definition kconsume (s : sys) (e : sqe) : sys :=
   match e with
   | Submit i =>
-      if auto s then set_kernel s (inflight s) (cq s ++ [COp i])
+      if auto s then set_kernel s (inflight s) (cq s ++ [COp i auto_cqe])
       else set_kernel s (inflight s ++ [i]) (cq s)
   | Cancel i =>
       if mem i (inflight s) then
         if o_cancelable (ops s i)
-        then set_kernel s (remove_first i (inflight s)) (cq s ++ [COp i])   (* -ECANCELED for the target; success is silent *)
+        then set_kernel s (remove_first i (inflight s)) (cq s ++ [COp i (fin (- ECANCELED))])   (* -ECANCELED for the target; success is silent *)
         else set_kernel s (inflight s) (cq s ++ [CBook])                    (* -EALREADY *)
       else set_kernel s (inflight s) (cq s ++ [CBook])                      (* -ENOENT *)
   end.
 
-(** The kernel finishes in-flight request [i] on its own (K2). *)
-Definition kcomplete (s : sys) (i : nat) : sys :=
-  if mem i (inflight s) then set_kernel s (remove_first i (inflight s)) (cq s ++ [COp i]) else s.
+(** The kernel posts the next scripted completion of in-flight request [i] (K2); without F_MORE
+    it is the final one and the request leaves the in-flight table. *)
+Definition kpost (s : sys) (i : nat) : sys :=
+  if mem i (inflight s) then
+    match scripts s i with
+    | [] => s
+    | c :: r =>
+        if c_more c then set_kernel_scr s (inflight s) (upd (scripts s) i r) (cq s ++ [COp i c])
+        else set_kernel_scr s (remove_first i (inflight s)) (upd (scripts s) i r) (cq s ++ [COp i c])
+    end
+  else s.
 
 (** * Ring thread *)
 
@@ -321,7 +421,7 @@ Definition advance (s : sys) : sys :=
   let '(n, q) := skip_book (r_n s) (cq s) in
   let s1 := set_kernel s (inflight s) q in
   match n, q with
-  | S _, COp _ :: _ => set_ring s1 RDisp (r_polls s) (r_lh s) n (r_end s) (r_avail s) (r_rest s)
+  | S _, COp _ _ :: _ => set_ring s1 RDisp (r_polls s) (r_lh s) n (r_end s) (r_avail s) (r_rest s)
   | _, _ => set_ring s1 RStoreHead (r_polls s) (r_lh s) 0 (r_end s) (r_avail s) (r_rest s)
   end.
 
@@ -329,13 +429,13 @@ Definition advance (s : sys) : sys :=
 Definition begin_dispatch (s : sys) : sys :=
   advance (set_ring s (r_pc s) (r_polls s) (r_lh s) (length (cq s)) (r_end s) (r_avail s) (r_rest s)).
 
-Definition dispatch (s : sys) : sys * list obs :=
+Definition dispatch_with (u : nat -> op -> cqe -> op * list obs * bool) (s : sys) : sys * list obs :=
   match r_n s, cq s with
-  | S n', COp i :: q' =>
+  | S n', COp i c :: q' =>
       match o_holder (ops s i) with
       | Some _ => (set_rpc s RDispSpin, [])
       | None =>
-          let '(o', out, bad) := o_update i (ops s i) in
+          let '(o', out, bad) := u i (ops s i) c in
           let s1 := set_bad (set_op (set_kernel s (inflight s) q') i o') (g_bad s || bad) in
           (advance (set_ring s1 (r_pc s) (r_polls s) (r_lh s) n' (r_end s) (r_avail s) (r_rest s)), out)
       end
@@ -355,8 +455,10 @@ Definition enter (s : sys) : sys * list obs :=
    map OConsumed taken).
 
 (** [fixed = true] is the code after the repair of H15 (every poll ends with
-    [wake_blocked_futures]); [false] is the code before. *)
-Definition rstep_with (fixed : bool) (s : sys) : sys * list obs :=
+    [wake_blocked_futures]); [false] is the code before. [u] is [Shared::update] + what
+    [Completion::process] does with its answer ([o_update]; a variant for the refutation of a
+    seeded change). *)
+Definition rstep_gen (u : nat -> op -> cqe -> op * list obs * bool) (fixed : bool) (s : sys) : sys * list obs :=
   match r_pc s with
   | RIdle => match r_polls s with O => (s, []) | S _ => (set_rpc s RLoadCqT, []) end
   | RLoadCqT => match cq s with [] => (set_rpc s RSetPolling, []) | _ :: _ => (begin_dispatch s, []) end
@@ -389,11 +491,12 @@ Definition rstep_with (fixed : bool) (s : sys) : sys * list obs :=
       (wb_done (set_ring s1 (r_pc s) (r_polls s) (r_lh s) (r_n s) (r_end s) 0 []), map OWakeB woken)
   | RClearPolling => (set_rpc s RLoadCqT2, [])
   | RLoadCqT2 => (begin_dispatch s, [])
-  | RDisp | RDispSpin => dispatch s
+  | RDisp | RDispSpin => dispatch_with u s
   | RStoreHead =>
       if fixed then (set_ring s RWbH (r_polls s) (r_lh s) (r_n s) true (r_avail s) (r_rest s), [])
       else (poll_return s, [])
   end.
+Definition rstep_with (fixed : bool) (s : sys) : sys * list obs := rstep_gen o_update fixed s.
 
 (** * Future threads *)
 
@@ -445,8 +548,24 @@ Definition call_start (s : sys) (t : nat) (f : fthread) : sys * list obs :=
           let s0 := set_bad s (g_bad s || negb (o_alloc o)) in
           match o_st o with
           | NotStarted => (set_thr (set_op s0 i (o_lock o t)) t (at_pc f FAddH1), [])
-          | Running => (set_thr (set_op s0 i (o_repoll o w)) t (call_done f), [OPending i w])
-          | Done => (set_thr (set_op s0 i (o_ready o)) t (call_done f), [OReady i])
+          | Running =>
+              match o_kind o with
+              | Multi =>
+                  match o_q o with
+                  | v :: q' => (set_thr (set_op s0 i (o_item o v q')) t (call_done f), [OReady i v])
+                  | [] => (set_thr (set_op s0 i (o_repoll o w)) t (call_done f), [OPending i w])
+                  end
+              | Single | TwoStep => (set_thr (set_op s0 i (o_repoll o w)) t (call_done f), [OPending i w])
+              end
+          | Done =>
+              match o_kind o with
+              | Multi =>
+                  match o_q o with
+                  | v :: q' => (set_thr (set_op s0 i (o_item o v q')) t (call_done f), [OReady i v])
+                  | [] => (set_thr (set_op s0 i (o_end o)) t (call_done f), [OEnd i])
+                  end
+              | Single | TwoStep => (set_thr (set_op s0 i (o_ready o)) t (call_done f), [OReady i (o_res o)])
+              end
           | Dropped | Complete => (set_thr s0 t (dead f), [OPanic])
           end
       end
@@ -491,14 +610,14 @@ Definition fstep (s : sys) (t : nat) : sys * list obs :=
 (** * Events *)
 
 (** [T 0]: the ring thread, [T (S k)]: future thread [k] runs to its next scheduling point;
-    [K i]: the kernel finishes request [i]. *)
+    [K i]: the kernel posts the next scripted completion of request [i]. *)
 Inductive ev := T (t : nat) | K (i : nat).
 
 Definition step_with (fixed : bool) (s : sys) (e : ev) : sys * list obs :=
   match e with
   | T O => rstep_with fixed s
   | T (S k) => fstep s k
-  | K i => (kcomplete s i, [])
+  | K i => (kpost s i, [])
   end.
 
 Definition step := step_with true.
@@ -538,8 +657,9 @@ Definition fstep_c06a (s : sys) (t : nat) : sys * list obs :=
       | FStore =>
           let s1 := set_sub_holder (set_sq s (sqh s) (sqt s + 1) (sq s ++ [Cancel i])) None in
           (set_thr (set_op s1 i (mk_op (ops s i) (o_st (ops s i)) (o_waker (ops s i)) (o_holder (ops s i))
-                                       (o_alloc (ops s i)) (o_started (ops s i)) (g_lastw (ops s i))
-                                       (g_woken (ops s i)) (g_frees (ops s i)) (S (g_cancels (ops s i)))))
+                                       (o_alloc (ops s i)) (o_started (ops s i)) (o_res (ops s i)) (o_q (ops s i))
+                                       (g_lastw (ops s i)) (g_woken (ops s i)) (g_frees (ops s i))
+                                       (S (g_cancels (ops s i))) (g_disp (ops s i)) (g_out (ops s i))))
                    t (at_pc f FBlockedLock), [])
       | FBlockedLock =>
           (* second acquisition: status := Dropped whatever it is now *)
@@ -556,7 +676,49 @@ Definition step_c06a (s : sys) (e : ev) : sys * list obs :=
   match e with
   | T O => rstep_with true s
   | T (S k) => fstep_c06a s k
-  | K i => (kcomplete s i, [])
+  | K i => (kpost s i, [])
+  end.
+
+(** * Variant for the refutation of seeded change C02-a: [Multishot::next] takes the oldest result
+    with [swap_remove(0)] (the LAST queued result takes its place) instead of [remove(0)]. Only the
+    poll of a multishot operation with a non-empty result queue differs. *)
+Definition swap_rest (q' : list Z) : list Z :=
+  match rev q' with [] => [] | x :: r => x :: rev r end.
+
+Definition fstep_c02a (s : sys) (t : nat) : sys * list obs :=
+  let f := thr s t in
+  match f_pc f, f_prog f with
+  | (FStart | FSpin), Poll i w :: _ =>
+      let o := ops s i in
+      match o_holder o, o_kind o, o_st o, o_q o with
+      | None, Multi, (Running | Done), v :: q' =>
+          (set_thr (set_op s i (o_item o v (swap_rest q'))) t (call_done f), [OReady i v])
+      | _, _, _, _ => fstep s t
+      end
+  | _, _ => fstep s t
+  end.
+
+Definition step_c02a (s : sys) (e : ev) : sys * list obs :=
+  match e with
+  | T O => rstep_with true s
+  | T (S k) => fstep_c02a s k
+  | K i => (kpost s i, [])
+  end.
+
+(** * Variant for the refutation of seeded change C06-b: [Shared::update] on a Dropped operation
+    that is not multishot releases the state on ANY completion ("singleshot operations get a single
+    completion"), also on the result completion (F_MORE) of a two-step operation. *)
+Definition o_update_c06b (i : nat) (o : op) (c : cqe) : op * list obs * bool :=
+  match o_st o, o_kind o with
+  | Dropped, (Single | TwoStep) => (o_free (o_seen o c), [OFree i (o_started o)], negb (o_alloc o))
+  | _, _ => o_update i o c
+  end.
+
+Definition step_c06b (s : sys) (e : ev) : sys * list obs :=
+  match e with
+  | T O => rstep_gen o_update_c06b true s
+  | T (S k) => fstep s k
+  | K i => (kpost s i, [])
   end.
 
 (** * Correspondence driver *)
@@ -597,7 +759,8 @@ Definition here (s : sys) (e : ev) : Z :=
 Definition obs_z (o : obs) : list Z :=
   match o with
   | OPending _ _ | OParked _ _ => [10]
-  | OReady _ => [11]
+  | OReady _ v => [11; v]
+  | OEnd _ => [13]
   | OPanic => [14]
   | OConsumed (Submit i) => [20; Z.of_nat i]
   | OConsumed (Cancel i) => [21; Z.of_nat i]
@@ -638,7 +801,11 @@ Fixpoint box_flags (s : sys) (n : nat) : list Z :=
 
 Record racecase := {
   rc_cap : N;
+  rc_auto : bool;
   rc_nops : nat;
+  rc_kinds : list kind;
+  rc_canc : list bool;
+  rc_scripts : list (list cqe);
   rc_polls : nat;
   rc_progs : list (list call);
   rc_events : list ev;
@@ -647,7 +814,8 @@ Record racecase := {
 (** After the replay: calls not made, polls not made, pending submissions, unprocessed
     completions, requests in flight; then per operation whether its box is still allocated. *)
 Definition run_racecase (c : racecase) : list Z :=
-  let '(s, o) := run_steps (init (rc_cap c) true [] (rc_polls c) (rc_progs c)) (rc_events c) in
+  let '(s, o) := run_steps (init (rc_cap c) (rc_auto c) (rc_kinds c) (rc_canc c) (rc_scripts c) (rc_polls c) (rc_progs c))
+                           (rc_events c) in
   o ++ [(-2)%Z; Z.of_nat (calls_left s (length (rc_progs c))); Z.of_nat (r_polls s);
         Z.of_nat (length (sq s)); Z.of_nat (length (cq s)); Z.of_nat (length (inflight s))]
     ++ [(-3)%Z] ++ box_flags s (rc_nops c).
